@@ -207,6 +207,20 @@ mutual
     | .mk key _ _ _ _ :: rest => key :: Field.keysL rest
 end
 
+mutual
+  /-- All response keys occurring in a plan. -/
+  def Comp.allKeys : Comp → List String
+    | .list _ cs => Comp.allKeysL cs
+    | .object fs => Field.allKeysL fs
+    | _ => []
+  def Comp.allKeysL : List Comp → List String
+    | [] => []
+    | c :: cs => c.allKeys ++ Comp.allKeysL cs
+  def Field.allKeysL : List Field → List String
+    | [] => []
+    | .mk key _ _ _ c :: rest => key :: (c.allKeys ++ Field.allKeysL rest)
+end
+
 /-! The all-synchronous counterpart of a plan: same selection sets, same resolver outcomes, every
     resolver answers directly. -/
 
